@@ -570,7 +570,7 @@ func c03Missing(c *Ctx, idx int, r *Rng) {
 	w.git("commit", "-qm", "objs")
 	// a first, healthy push of an earlier commit so that refs exist on the remote in half of the cases
 	victim := oids[r.Intn(3)]
-	allow := r.Chance(25)
+	allow := r.Chance(40)
 	if allow {
 		w.git("config", "lfs.allowincompletepush", "true")
 	}
@@ -588,10 +588,29 @@ func c03Missing(c *Ctx, idx int, r *Rng) {
 		nb[len(nb)/2] ^= 1
 		os.WriteFile(p, nb, 0o644)
 	}
+	// a second, independent fault in the same push: the server refuses (or loses) ANOTHER object, one that
+	// is perfectly fine locally — allowing incomplete pushes excuses absent objects, nothing else
+	refused := ""
+	if kind == "http" && r.Chance(map[bool]int{true: 75, false: 30}[allow]) {
+		for _, o := range oids {
+			if o != victim {
+				refused = o
+				break
+			}
+		}
+		srv.mu.Lock()
+		if r.Bool() {
+			srv.putFail[refused] = Pick(r, []int{500, 403, 507})
+		} else {
+			srv.putLose[refused] = true
+		}
+		srv.mu.Unlock()
+		c.R.Count("damaged-object-push.plus-server-fault")
+	}
 	before := remoteRefs(remote, w.env)
 	out, code := w.git("push", "origin", "master")
 	after := remoteRefs(remote, w.env)
-	enc := fmt.Sprintf("C03 missing seed=%d idx=%d remote=%s damage=%s allowincomplete=%v", c.Seed, idx, kind, damage, allow)
+	enc := fmt.Sprintf("C03 missing seed=%d idx=%d remote=%s damage=%s allowincomplete=%v server-refuses-another=%v", c.Seed, idx, kind, damage, allow, refused != "")
 	c.R.Eval(enc, true)
 	c.R.Count("damaged-object-push." + kind + "." + damage)
 	stored := func(oid string) ([]byte, bool) {
